@@ -122,6 +122,15 @@ thread_local! {
     };
 }
 
+#[cfg(feature = "par")]
+fn current_worker() -> i32 {
+    rayon::current_thread_index().map(|i| i as i32).unwrap_or(-1)
+}
+#[cfg(not(feature = "par"))]
+fn current_worker() -> i32 {
+    -1
+}
+
 pub fn thread_no() -> u64 {
     THREAD_NO.with(|t| *t)
 }
@@ -199,7 +208,7 @@ impl Ctx {
             sys,
             kind,
             thread: thread_no(),
-            worker: rayon::current_thread_index().map(|i| i as i32).unwrap_or(-1),
+            worker: current_worker(),
             call: self.call.load(SeqCst),
         };
         self.log.lock().unwrap().push(ev);
